@@ -1,4 +1,4 @@
-import Logrange.Proofs.Lql
+import Logrange.Proofs.LqlStmt
 /-!
 # C12 — LQL statements keep their meaning through print and re-parse
 
@@ -312,6 +312,43 @@ theorem range_prints_nonempty (rd : Int → Bytes) (r : Range) (h : r.p1.isSome 
 /-- the old witness is rejected by the model as it is by the code; the bracketed spellings with a time point are not -/
 example : (parseLql dp0 (txt "SELECT RANGE [")).isNone = true ∧ (parseLql dp0 (txt "select from a=b range [ limit 5")).isNone = true
     ∧ (parseLql dpEx (txt "select range [\"2019-01-02 12:34:55.500000000 +0000 UTC\"")).map hasEmptyRange = some false := by
+  decide +kernel
+
+/-! ## every statement kind at token level -/
+
+/-- **C12_wf: for every statement in the parser's image minus the open classes — SELECT (format, source, RANGE, WHERE,
+POSITION, OFFSET, LIMIT), SHOW PARTITIONS / PIPES, DESCRIBE PARTITION / PIPE, TRUNCATE, CREATE PIPE, DELETE PIPE — at
+any nesting depth, the direct statement parser returns exactly the statement from `tokensOf` of it**, given the date
+contract for the instants it prints and any fuel ≥ the size of its expressions. `wfLql` is decidable and is evaluated
+on every accepted statement of every run (it held on all outside F12b / F12e). -/
+theorem C12_wf (dp : Bytes → Option Int) (rd : Int → Bytes) (l : Lql) (f : Nat) (hf : lqlSz l ≤ f)
+    (hw : wfLql rd l = true) (hc : LqlContract dp rd l) : directLqlFuel dp f (toksLql rd l) = some l :=
+  directLql_toks dp rd l f hf hw hc
+
+def LexableLql (rd : Int → Bytes) (l : Lql) : Prop := lex (printLql rd l) = some (toksLql rd l)
+instance (rd : Int → Bytes) (l : Lql) : Decidable (LexableLql rd l) := by unfold LexableLql; exact inferInstance
+
+/-- print then parse gives the same statement back, every statement kind, under `Lexable` and the date contract -/
+theorem print_parse_lql_partial (dp : Bytes → Option Int) (rd : Int → Bytes) (l : Lql) (f : Nat) (hf : lqlSz l ≤ f)
+    (hw : wfLql rd l = true) (hc : LqlContract dp rd l) (hl : LexableLql rd l) :
+    (lex (printLql rd l)).bind (directLqlFuel dp f) = some l := by
+  rw [hl]; exact C12_wf dp rd l f hf hw hc
+
+/-- `SELECT "{msg}" FROM <exE> RANGE ["…55.5…":"…55.5…"] WHERE <exE> POSITION "tail" OFFSET -5 LIMIT 10` -/
+def exS : Select :=
+  { format := some (txt "{msg}"), source := some (.expr exE), range := some ⟨some 1546432495500000000, some 1546432495500000000⟩,
+    where_ := some exE, position := some (txt "tail"), offset := some (-5), limit := some 10 }
+
+example : wfLql rdEx { select := some exS } = true ∧ LexableLql rdEx { select := some exS } := by
+  unfold LexableLql; decide +kernel
+example : wfLql rdEx { show_ := some { partitions := some { source := some (.tags [([97], [98])]), offset := some 0, limit := some 7 } } } = true
+    ∧ wfLql rdEx { create := some { pipe := some { name := txt "p1", from_ := some (.expr exE), where_ := some exE } } } = true
+    ∧ wfLql rdEx { describe := some { pipe := some (txt "a:b/c") } } = true ∧ wfLql rdEx { delete := some { pipeName := some (txt "p") } } = true
+    ∧ wfLql rdEx { truncate := some exT } = true := by
+  decide +kernel
+/-- the open classes are outside `wfLql`: bare keyword (F12e), `SELECT ""` (F12e), unsafe tag value (F12b) -/
+example : wfLql rdEx {} = false ∧ wfLql rdEx { select := some { format := some [] } } = false
+    ∧ wfLql rdEx { select := some { source := some (.tags [([97], [125])]) } } = false := by
   decide +kernel
 
 end Logrange.Props.C12
